@@ -149,6 +149,97 @@ pub const MAX_KILLED: usize = 24;
 /// hung executions abandoned so far in this process
 pub static ABANDONED: AtomicU64 = AtomicU64::new(0);
 
+// ---------------------------------------------------------------------------
+// Crash breadcrumbs. The code under test runs inside this process; if it brings the process down
+// (abort after a panic inside a destructor during unwinding, a segmentation fault in unsafe code, a
+// stack overflow) no verdict could be written. Every worker therefore publishes which (family, index)
+// it is executing, and a signal handler prints those breadcrumbs before the process dies; the driver
+// script then re-runs each candidate alone in a child process to find the case that crashes.
+// ---------------------------------------------------------------------------
+const N_CRUMBS: usize = 256;
+#[allow(clippy::declare_interior_mutable_const)]
+const CRUMB_INIT: AtomicU64 = AtomicU64::new(u64::MAX);
+static CRUMB_IDX: [AtomicU64; N_CRUMBS] = [CRUMB_INIT; N_CRUMBS];
+static CRUMB_FAM: [AtomicU64; N_CRUMBS] = [CRUMB_INIT; N_CRUMBS];
+static NEXT_CRUMB: AtomicU64 = AtomicU64::new(0);
+
+fn write_num(buf: &mut [u8], pos: &mut usize, mut v: u64) {
+    let mut tmp = [0u8; 20];
+    let mut n = 0;
+    if v == 0 {
+        tmp[0] = b'0';
+        n = 1;
+    }
+    while v > 0 {
+        tmp[n] = b'0' + (v % 10) as u8;
+        v /= 10;
+        n += 1;
+    }
+    while n > 0 {
+        n -= 1;
+        buf[*pos] = tmp[n];
+        *pos += 1;
+    }
+}
+
+extern "C" fn on_crash(sig: libc::c_int) {
+    // only async-signal-safe operations: atomics and write(2)
+    for i in 0..N_CRUMBS {
+        let idx = CRUMB_IDX[i].load(Ordering::Relaxed);
+        if idx == u64::MAX {
+            continue;
+        }
+        let fam = CRUMB_FAM[i].load(Ordering::Relaxed);
+        let mut buf = [0u8; 96];
+        let mut pos = 0;
+        for b in b"CRASH-CRUMB sig=" {
+            buf[pos] = *b;
+            pos += 1;
+        }
+        write_num(&mut buf, &mut pos, sig as u64);
+        for b in b" fam=" {
+            buf[pos] = *b;
+            pos += 1;
+        }
+        write_num(&mut buf, &mut pos, fam);
+        for b in b" idx=" {
+            buf[pos] = *b;
+            pos += 1;
+        }
+        write_num(&mut buf, &mut pos, idx);
+        buf[pos] = b'\n';
+        pos += 1;
+        unsafe {
+            libc::write(2, buf.as_ptr() as *const libc::c_void, pos);
+        }
+    }
+    unsafe {
+        libc::signal(sig, libc::SIG_DFL);
+        libc::raise(sig);
+    }
+}
+
+/// Installs the breadcrumb printer for the signals that end a process after a crash.
+pub fn install_crash_handler() {
+    unsafe {
+        for sig in [libc::SIGABRT, libc::SIGSEGV, libc::SIGBUS, libc::SIGILL, libc::SIGFPE] {
+            let mut sa: libc::sigaction = std::mem::zeroed();
+            sa.sa_sigaction = on_crash as usize;
+            sa.sa_flags = libc::SA_ONSTACK | libc::SA_NODEFER;
+            libc::sigemptyset(&mut sa.sa_mask);
+            libc::sigaction(sig, &sa, std::ptr::null_mut());
+        }
+    }
+}
+
+/// `VERIF_ONLY=<family no>:<index>` restricts every sweep to that single case (used by the driver to
+/// find the case that crashes the process).
+fn only_case() -> Option<(usize, u64)> {
+    let v = std::env::var("VERIF_ONLY").ok()?;
+    let (a, b) = v.split_once(':')?;
+    Some((a.parse().ok()?, b.parse().ok()?))
+}
+
 pub fn threads() -> usize {
     std::env::var("VERIF_THREADS")
         .ok()
@@ -215,6 +306,7 @@ fn spawn_worker(sh: std::sync::Arc<Shared>, fam: &'static dyn Family, body: &'st
     });
     sh.slots.lock().unwrap().push(slot.clone());
     let my = slot.clone();
+    let crumb = (NEXT_CRUMB.fetch_add(1, Ordering::Relaxed) as usize) % N_CRUMBS;
     std::thread::Builder::new()
         .stack_size(64 << 20)
         .spawn(move || {
@@ -231,11 +323,14 @@ fn spawn_worker(sh: std::sync::Arc<Shared>, fam: &'static dyn Family, body: &'st
                     let idx = sh.offset + k * sh.stride;
                     my.started.store(sh.t0.elapsed().as_millis() as u64, Ordering::SeqCst);
                     my.idx.store(idx, Ordering::SeqCst);
+                    CRUMB_FAM[crumb].store(sh.fam_no as u64, Ordering::Relaxed);
+                    CRUMB_IDX[crumb].store(idx, Ordering::Relaxed);
                     let r = std::panic::catch_unwind(std::panic::AssertUnwindSafe(|| {
                         let case = fam.get(idx);
                         body(idx, &case, &mut acc);
                     }));
                     my.idx.store(u64::MAX, Ordering::SeqCst);
+                    CRUMB_IDX[crumb].store(u64::MAX, Ordering::Relaxed);
                     if my.kill.swap(false, Ordering::SeqCst) {
                         acc.count("executions_stopped_by_kill_switch");
                     }
@@ -270,8 +365,18 @@ pub fn sweep<'a>(fam: &'a (dyn Family + 'a), opts: &SweepOpts, body: &'a (dyn Fn
         return a;
     }
     let len = fam.len();
-    let stride = opts.stride.max(1);
-    let n_items = if len > opts.offset { (len - opts.offset + stride - 1) / stride } else { 0 };
+    let mut stride = opts.stride.max(1);
+    let mut offset = opts.offset;
+    let mut n_items = if len > opts.offset { (len - opts.offset + stride - 1) / stride } else { 0 };
+    if let Some((f, i)) = only_case() {
+        if f == opts.fam_no && i < len {
+            stride = 1;
+            offset = i;
+            n_items = 1;
+        } else {
+            n_items = 0;
+        }
+    }
     // SAFETY: worker threads only use these references while the sweep runs; a worker that is
     // abandoned because its execution hangs never touches them again (it parks forever), and
     // the process ends with std::process::exit.
@@ -284,7 +389,7 @@ pub fn sweep<'a>(fam: &'a (dyn Family + 'a), opts: &SweepOpts, body: &'a (dyn Fn
         n_items,
         chunk: (n_items / (opts.threads as u64 * 16)).clamp(1, 256),
         stride,
-        offset: opts.offset,
+        offset,
         fam_no: opts.fam_no,
         t0: Instant::now(),
     });
